@@ -366,3 +366,34 @@ package tax
 //@   requires tv != nil
 //@   ensures [offered] typeis(val, Tags) ==> (err == nil <==> (forall i int :: 0 <= i && i < len(unboxed(val, Tags).List) ==> cbc.keyAmong(unboxed(val, Tags).List[i], tv.keys)))
 //@   loop 1 invariant forall j int :: 0 <= j && j < idx ==> cbc.keyAmong(list[j], tv.keys)
+//
+// ---- C02: a tax included in the prices is taken out of each line with its own percentage
+//
+// the combo that applies to a line for a category is the first one of that category
+//@ pred firstCombo(taxes Set, code cbc.Code, j int) bool = 0 <= j && j < len(taxes) && taxes[j].Category == code && (forall k int :: 0 <= k && k < j ==> taxes[k].Category != code)
+//@ pred noCombo(taxes Set, code cbc.Code) bool = forall k int :: 0 <= k && k < len(taxes) ==> taxes[k].Category != code
+//@ func (s Set) Get(cat) (c)
+//@   requires forall i int :: 0 <= i && i < len(s) ==> s[i] != nil
+//@   ensures [none] c == nil ==> noCombo(s, cat)
+//@   ensures [first] c != nil ==> (exists j int :: firstCombo(s, cat, j) && s[j] == c)
+//@   loop 1 invariant forall k int :: 0 <= k && k < idx ==> s[k].Category != cat
+//
+// net: t is the tax-exclusive amount of the tax-inclusive amount g for percentage p:
+// g / (1 + p) rounded half away from zero at g's precision
+//@ spec netOf(g num.Amount, p num.Percentage, t num.Amount) bool = t.exp == g.exp && near(g.value * pow10(p.amount.exp), p.amount.value + pow10(p.amount.exp), t.value)
+//@ pred linesDistinct(ls []*taxLine) bool = forall i int, j int :: 0 <= i && i < j && j < len(ls) ==> ls[i] != ls[j]
+//@ pred removable(ls []*taxLine, code cbc.Code) bool = forall i int, j int :: 0 <= i && i < len(ls) && firstCombo(ls[i].taxes, code, j) && ls[i].taxes[j].Percent != nil ==> ls[i].taxes[j].Percent.amount.value + pow10(ls[i].taxes[j].Percent.amount.exp) != 0
+//@ func (tc *TotalCalculator) removeIncludedTaxes(taxLines) (err)
+//@   opaque near pow10
+//@   requires tc != nil && taxLinesOK(taxLines) && linesDistinct(taxLines) && removable(taxLines, tc.Includes)
+//@   modifies taxLine.total
+//@   footprint taxLines
+//@   ensures [none] tc.Includes == "" ==> err == nil && (forall i int :: 0 <= i && i < len(taxLines) ==> taxLines[i].total == old(taxLines[i].total))
+//@   ensures [removed] err == nil && tc.Includes != "" ==> (forall i int, j int :: 0 <= i && i < len(taxLines) && firstCombo(taxLines[i].taxes, tc.Includes, j) && taxLines[i].taxes[j].Percent != nil ==> netOf(old(taxLines[i].total), *taxLines[i].taxes[j].Percent, taxLines[i].total))
+//@   ensures [kept] err == nil ==> (forall i int :: 0 <= i && i < len(taxLines) && noCombo(taxLines[i].taxes, tc.Includes) ==> taxLines[i].total == old(taxLines[i].total))
+//@   ensures [exempt] err == nil ==> (forall i int, j int :: 0 <= i && i < len(taxLines) && firstCombo(taxLines[i].taxes, tc.Includes, j) && taxLines[i].taxes[j].Percent == nil ==> taxLines[i].total == old(taxLines[i].total))
+//@   ensures [retained] err != nil ==> (exists i int, j int :: 0 <= i && i < len(taxLines) && firstCombo(taxLines[i].taxes, tc.Includes, j) && taxLines[i].taxes[j].retained)
+//@   loop 1 invariant forall i int :: idx <= i && i < len(taxLines) ==> taxLines[i].total == old(taxLines[i].total)
+//@   loop 1 invariant forall i int, j int :: 0 <= i && i < idx && firstCombo(taxLines[i].taxes, tc.Includes, j) && taxLines[i].taxes[j].Percent != nil ==> netOf(old(taxLines[i].total), *taxLines[i].taxes[j].Percent, taxLines[i].total)
+//@   loop 1 invariant forall i int :: 0 <= i && i < idx && noCombo(taxLines[i].taxes, tc.Includes) ==> taxLines[i].total == old(taxLines[i].total)
+//@   loop 1 invariant forall i int, j int :: 0 <= i && i < idx && firstCombo(taxLines[i].taxes, tc.Includes, j) && taxLines[i].taxes[j].Percent == nil ==> taxLines[i].total == old(taxLines[i].total)
